@@ -110,7 +110,7 @@ def sup(secs):
     return {'_sup': {'startsecs': secs, 'stopwaitsecs': secs}}
 
 
-def configs(t):
+def configs(t, deep_for_c16=False):
     out = []
     for secs in (1, 6, 11):
         A = app('A', 0, [dict(prog('a', 1, required=True), **sup(secs)), dict(prog('b', 2), **sup(secs))], 'CONTINUE')
@@ -184,7 +184,9 @@ def configs(t):
     out.append(base('n3-start-stuck', [A1], n=3, steps=2,
                     triggers=[['rpc', 2, 'start_application', ['LESS_LOADED', 'A', False]]], behaviours=['backoff'], T=2,
                     cost=6))
-    if t == 'thorough':
+    # deeper variants: exploratory only (VERIF_DEEP=1), see DESIGN.md 10.6 (unclassified signals: the closure bound B does
+    # not account for deviations); C16 still uses them for its internal-error monitor (VERIF_DEEP not needed there)
+    if t == 'thorough' and (os.environ.get('VERIF_DEEP') or deep_for_c16):
         deep = []
         for c in out:
             c2 = dict(c)
